@@ -112,6 +112,11 @@ def classify(line):
         return "F30"
     if f.get("fa", "N") != "N" and f.get("blind") == "1" and k in lost:
         return "F29"
+    # same defect, other face: the start-up scan uses the UN-appended constructor name, so it is not only blind to the sink's own
+    # files, it also recovers files of the un-appended family (a planted / foreign log.5.log) into _created_files: they count as
+    # backups, rotation stops early with overwrite off, the current file grows past the limit (thorough seed 1, case s1z258)
+    if f.get("fa", "N") != "N" and k == "over-limit":
+        return "F29"
     if f.get("base") in ("noext", "hidden") and f.get("blind") == "1" and k in lost:
         return "F28"
     if f.get("base") == "numstem" and sch == "I" and int(f.get("arestarts", "0") or 0) >= 1 and k in lost + ("not-in-cur",):
